@@ -32,6 +32,8 @@ package compile
 //@   ensures(implicit) err == nil ==> forall(k, 1, len(src.Items), src.Items[k].Value == nil ==> int64(result.Items[k].Value) == int64(result.Items[k-1].Value) + 1)
 //@   ensures(first) err == nil && len(src.Items) > 0 && src.Items[0].Value == nil ==> result.Items[0].Value == 0
 
+//@ spec compile.smt2
+
 //@ fieldcontract namespace.transform
 //@   pure
 //@   ensures result == apply_str(fn, arg0)
